@@ -182,7 +182,7 @@ def summary(out):
     sub = {e['id']: e for e in out['trace'] if e['k'] == 'submit'}
     ex_full = [(sub[e['id']]['side'],) + (e['type'], e['qty'], e['price'], e['t']) for e in out['trace'] if e['k'] == 'execute' and e['was'] == 'ACTIVE' and e['id'] in sub]
     tr = [(t['type'], t['qty'], t['entry'], t['exit'], t['pnl'], t['opened_at'], t['closed_at']) for t in out.get('trades', [])]
-    return {'executed': ex_full, 'trades': tr, 'final': out.get('final')}
+    return {'executed': ex_full, 'trades': tr, 'final': out.get('final'), 'stored_1m_candles': out.get('stored_1m')}
 
 
 def run(tier, seed, replay=None):
@@ -288,7 +288,7 @@ def run(tier, seed, replay=None):
         sa, sb = summary(a), summary(b)
         n_exec += len(sa['executed'])
         if b['error'] or sa != sb:
-            what = next((key for key in ('executed', 'trades', 'final') if sa[key] != sb[key]), 'error')
+            what = next((key for key in ('executed', 'trades', 'final', 'stored_1m_candles') if sa[key] != sb[key]), 'error')
             diffs.append({'differs_in': what, 'fast_error': b['error'], 'timeframe': tf, 'data_routes': data, 'script': sc, 'normal': sa, 'fast': sb, 'candles': cs, **kw})
     # tie of Model/FastMatch.v to the fast simulator: the syntactic shape check, or - when the source was re-arranged and the shape is not
     # recognised - the chunk correspondence, the real-matcher differential and the (doubled) session differential, which must all be clean
